@@ -297,13 +297,17 @@ def run_property(prop: str, tier: str, repo_root: str, rules: Callable[[Ctx], No
     seed = int(os.environ.get("VERIF_SEED", "0") or 0)
     evidence_path = os.path.join(VERIF_ROOT, "evidence", f"{prop}.json")
     os.makedirs(os.path.dirname(evidence_path), exist_ok=True)
+    ctx = None
     try:
         ctx = Ctx(prop, tier, repo_root)
         rules(ctx)
         ctx.finish_vacuity()
     except AnalysisError as e:
+        # a vanished anchor: the rest of the property could not be analysed.  Violations ALREADY established on positive
+        # evidence stand (exit 1 below); without any, the run is analysis-broken (exit 2), never a pass.
         print(f"ANALYSIS-ERROR property={prop} {e}")
-        return 2
+        if ctx is None or not any(o.status == "violated" and match_known(o, load_known_findings()) is None for o in ctx.obligations):
+            return 2
     except Exception as e:  # checker crash is never a verdict
         traceback.print_exc()
         print(f"ANALYSIS-ERROR property={prop} checker crashed: {type(e).__name__}: {e}")
